@@ -8,6 +8,8 @@ module N :
 
   val double : coq_N -> coq_N
 
+  val pred : coq_N -> coq_N
+
   val add : coq_N -> coq_N -> coq_N
 
   val sub : coq_N -> coq_N -> coq_N
@@ -30,7 +32,17 @@ module N :
 
   val modulo : coq_N -> coq_N -> coq_N
 
+  val coq_land : coq_N -> coq_N -> coq_N
+
+  val coq_lxor : coq_N -> coq_N -> coq_N
+
+  val shiftl : coq_N -> coq_N -> coq_N
+
   val to_nat : coq_N -> nat
 
   val of_nat : nat -> coq_N
+
+  val ones : coq_N -> coq_N
+
+  val lnot : coq_N -> coq_N -> coq_N
  end
